@@ -784,6 +784,25 @@ def prog_multi(seed: int, n_ops: int = 8, *, three: float = 0.3, prefs: float = 
             pr = g.apply(cur, ["proj", *sorted(target_cols)], target_cols,
                          g.opts(g.eng[src], True, rng.random() < 0.3, rng.random() < 0.3))
             observed += [plain, pr]
+    elif sc < 0.62:
+        # scenario: a Transfer that already HOLDS a payload (attach_payload is public API, and
+        # processed trees contain such nodes), operations downstream of it, then an operation with a
+        # preferred engine that forces back-tracking through them and (usually) cannot finish
+        src = g.pick()
+        other = rng.choice([e for e in engines if e != g.eng[src]])
+        cur = g.transfer(src, other)
+        g.emit(["attach", cur])
+        for _ in range(rng.choice([1, 1, 2])):
+            if not g.cols[cur]:
+                break
+            op, nc = g.rand_op(g.cols[cur], allow=("proj", "proj", "sel", "calc", "sort"))
+            cur = g.apply(cur, op, nc)
+        if g.cols[cur]:
+            op, nc = g.rand_op(g.cols[cur], allow=("calc", "calc", "proj", "sel", "sort", "dedup"))
+            pref = rng.choice(engines)
+            plain = g.apply(cur, op, nc)
+            pr = g.apply(cur, op, nc, g.opts(pref, True, rng.random() < 0.5, False))
+            observed += [plain, pr]
     for _ in range(n_ops):
         k = rng.random()
         t = g.pick()
